@@ -197,6 +197,47 @@ fn file_batches(rep: &Report, dir: &std::path::Path, nsamples: usize, ncontigs: 
                 break;
             }
         }
+        // every valid history of <= 5 batch loads (restarts before or after a pass is complete) on a fresh
+        // handle: whatever was loaded must be right afterwards
+        if nb >= 2 && ncontigs == 1 {
+            // the loader is a sequential cursor API (positions come from a cumulative counter): a valid
+            // history starts with batch 0 and every later load is either the next batch or batch 0 again
+            let mut seqs: Vec<Vec<usize>> = vec![vec![0]];
+            let mut frontier: Vec<Vec<usize>> = vec![vec![0]];
+            for _ in 0..4 {
+                let mut next = Vec::new();
+                for h in &frontier {
+                    for cand in [0usize, h[h.len() - 1] + 1] { if cand < nb { let mut g = h.clone(); g.push(cand); next.push(g); } }
+                }
+                seqs.extend(next.iter().cloned());
+                frontier = next;
+            }
+            for sq in &seqs {
+                let mut rd = Archive::new_reader();
+                rd.open(&path).map_err(|e| e.to_string())?;
+                let mut b = CollectionV3::new();
+                b.set_config(50, 11, None);
+                b.prepare_for_decompression(&rd).map_err(|e| e.to_string())?;
+                b.load_batch_sample_names(&mut rd).map_err(|e| e.to_string())?;
+                let r = guarded(|| -> Result<(), String> { for &bi in sq { b.load_contig_batch(&mut rd, bi).map_err(|e| format!("load batch {bi}: {e:#}"))?; } Ok(()) });
+                match r {
+                    Ok(Ok(())) => {}
+                    Ok(Err(e)) => { rep.violation("C03:batch_load_sequence_error", "a sequence of batch loads failed", json!({"samples": nsamples, "load_sequence": sq, "error": e})); continue; }
+                    Err(p) => { rep.violation(&format!("C03:batch_load_sequence_panic:{}", short_loc(&last_panic_loc())), "a sequence of batch loads panicked", json!({"samples": nsamples, "load_sequence": sq, "panic": p})); continue; }
+                }
+                // what is loaded after the history: every batch up to the furthest one ever reached
+                let last = *sq.iter().max().unwrap();
+                for i in 0..nsamples {
+                    if i / 50 > last { continue; }
+                    let got = b.get_sample_desc(&sname(i)).unwrap_or_default();
+                    let ok = got.len() == ncontigs && (0..ncontigs).all(|j| got[j].0 == cname(i, j) && got[j].1.iter().map(|x| (x.group_id, x.in_group_id, x.is_rev_comp, x.raw_length)).collect::<Vec<Row>>() == rows(i, j));
+                    if !ok {
+                        rep.violation("C03:batch_catalogue_depends_on_load_sequence", "contig names or descriptors of a sample differ after a particular sequence of batch loads", json!({"samples": nsamples, "load_sequence": sq, "sample_index": i, "batch": i / 50}));
+                        break;
+                    }
+                }
+            }
+        }
         Ok(())
     });
     match r {
@@ -212,7 +253,7 @@ pub fn run() -> i32 {
         "C03",
         "main",
         "exploration",
-        "name codec: all ordered pairs over ~500 names built from 16 field values (a, b, ab, empty, chr1/chr10/chr2, 100/101 equal chars, 100x+y, 127z, tab, symbols, 300 chars, 250-char near-identical) with 1-4 fields, and all ordered triples over a subset; descriptor codec: every table up to depth D over {2 groups} x {ids 0,1,2,3,5,49,50,51} with encoder/decoder predictor comparison, stateless sweeps of raw lengths / orientation / group ids, cross-sample predictor tables; collection batches through a real Archive for sample counts 1,2,49,50,51,99,100,101,120,151 x 1..3 contigs; end-to-end create/list for 51/101 samples. non-trivial = name pairs whose second name is delta-coded + tables with an id that goes back or jumps",
+        "name codec: all ordered pairs over ~500 names built from 16 field values (a, b, ab, empty, chr1/chr10/chr2, 100/101 equal chars, 100x+y, 127z, tab, symbols, 300 chars, 250-char near-identical) with 1-4 fields, and all ordered triples over a subset; descriptor codec: every table up to depth D over {2 groups} x {ids 0,1,2,3,5,49,50,51} with encoder/decoder predictor comparison, stateless sweeps of raw lengths / orientation / group ids, cross-sample predictor tables; collection batches through a real Archive (full pass, and every valid history of <= 5 batch loads - next batch or restart at batch 0 - on a fresh handle) for sample counts 1,2,49,50,51,99,100,101,120,151 x 1..3 contigs; end-to-end create/list for 51/101 samples. non-trivial = name pairs whose second name is delta-coded + tables with an id that goes back or jumps",
     );
     quiet_panics();
     set_zstd_cap(true);
